@@ -41,6 +41,65 @@ def resultJson (f : Heap → Ref → Json) : Res → Json
   | (h, .ok a) => Json.mkObj [("ok", f h a)]
   | (_, .error e) => Json.mkObj [("err", Json.str e.name)]
 
+/-- a cell on the heap: arrays, its values dict, the cell object (no metadata) -/
+def allocCell (h : Heap) (d : Dict Val) : Heap × Loc :=
+  let (h1, v) := allocDict h d
+  mkCell h1 (.loc v) .none
+
+def strList (j : Json) (k : String) : Except String (List String) := do
+  (← (← j.getObjVal? k).getArr?).toList.mapM (·.getStr?)
+
+/-- the cell-level helpers: {"fn":…, "a":[[k,val]…], "b":…, parameters}; the answer lists the result
+cell's values, which of them alias an argument object, and whether the arguments are unchanged -/
+def cellOp (fn : String) (j : Json) : Except String Json := do
+  let (h0, r) ← match fn with
+    | "summarize_cells" => do
+      let cells ← (← (← j.getObjVal? "cells").getArr?).toList.mapM (dictFromJson Val.fromJson)
+      let keys ← strList j "keys"
+      let (h0, locs) := cells.foldl (fun (acc : Heap × List Loc) d =>
+        let (h', c) := allocCell acc.1 d; (h', acc.2 ++ [c])) (({} : Heap), [])
+      pure (h0, summarizeCellValues Generated.Accum.pattern__conforming_sum h0 locs keys)
+    | _ => do
+      let a ← dictFromJson Val.fromJson (← j.getObjVal? "a")
+      let (h1, ca) := allocCell {} a
+      match fn with
+      | "thin" =>
+        let ndxs ← (← (← j.getObjVal? "ndxs").getArr?).toList.mapM (·.getNat?)
+        pure (h1, thinCell Generated.Accum.pattern__thin_cell h1 ca ndxs)
+      | "currency" =>
+        let fields ← strList j "fields"
+        let rate ← ratFromJson (← j.getObjVal? "rate")
+        pure (h1, convertCellCurrency Generated.Accum.pattern__convert_cell_currency h1 ca fields rate (.scalar 1))
+      | "select" =>
+        pure (h1, cellSelect Generated.Accum.pattern_Cell_select h1 ca (← strList j "keys"))
+      | "derive_fields" =>
+        let defs ← dictFromJson Val.fromJson (← j.getObjVal? "defs")
+        let (h2, refs) := allocVals h1 (defs.map (·.2))
+        pure (h2, cellDeriveFields Generated.Accum.pattern_Cell_derive_fields h2 ca ((defs.map (·.1)).zip refs))
+      | "add_statics" =>
+        let b ← dictFromJson Val.fromJson (← j.getObjVal? "b")
+        let (h2, cb) := allocCell h1 b
+        pure (h2, cellAddStatics Generated.Accum.pattern_Cell_add_statics h2 ca cb (← strList j "fields"))
+      | _ =>
+        let b ← dictFromJson Val.fromJson (← j.getObjVal? "b")
+        let (h2, cb) := allocCell h1 b
+        let suffix := match j.getObjVal? "suffix" with
+          | .ok (.str s) => some s
+          | _ => none
+        pure (h2, overwriteValues Generated.Accum.pattern__overwrite_values h2 ca cb suffix)
+  let entries : List (String × Ref) := match r with
+    | (h', .ok (.loc l)) =>
+      if fn == "summarize_cells" then (match h'.get l with | some (.dict es) => es | _ => [])
+      else ((cellValues h' l).map (·.2)).getD []
+    | _ => []
+  let alias : List Json := entries.filterMap fun (e : String × Ref) => match e.2 with
+    | Ref.loc l => if l < h0.size then some (Json.str e.1) else none
+    | _ => none
+  let out := match r with
+    | (h', .ok _) => Json.mkObj [("ok", Json.arr (entries.map fun e => Json.arr #[Json.str e.1, refToJson h' e.2]).toArray)]
+    | (_, .error e) => Json.mkObj [("err", Json.str e.name)]
+  return Json.mkObj [("model", out), ("unchanged", preservesB h0 r.1), ("alias", Json.arr alias.toArray)]
+
 def handle (j : Json) : Except String Json := do
   let fn ← (← j.getObjVal? "fn").getStr?
   match fn with
@@ -72,6 +131,8 @@ def handle (j : Json) : Except String Json := do
       | (_, .error _) => []
     let out := resultJson (fun h x => Json.arr ((entries h x).map fun e => Json.arr #[Json.str e.1, refToJson h e.2]).toArray) r
     return Json.mkObj [("model", out), ("unchanged", unchanged), ("alias", Json.arr alias.toArray)]
+  | "thin" | "currency" | "select" | "derive_fields" | "add_statics" | "overwrite" | "summarize_cells" =>
+    cellOp fn j
   | o => throw s!"unknown fn {o}"
 
 def main : IO Unit := serve handle
